@@ -58,8 +58,10 @@ impl Decoder {
         let ((expected_size, used_bytes), data) = match decode_size(&self.stored) {
             Some(size_info) => (size_info, data),
             None => {
-                // we append at most the potential data needed to decode the size
-                let max_remaining = (MAX_ENCODED_SIZE - self.stored.len()).min(data.len());
+                // we append only the data needed to decode the size: up to the first byte
+                // without the continuation bit, and never more than an encoded size can have.
+                let size_end = data.iter().position(|b| b & 0x80 == 0).map_or(data.len(), |p| p + 1);
+                let max_remaining = MAX_ENCODED_SIZE.saturating_sub(self.stored.len()).min(size_end);
                 self.stored.extend_from_slice(&data[..max_remaining]);
 
                 if let Some(x) = decode_size(&self.stored) {
